@@ -334,9 +334,15 @@ fn run_case(case: &Case, exp_up: &UserProps, out: &mut Outcome) -> Result<(), Fa
                 w.drain_stream(s);
                 let mut want = msg_expected(&p2);
                 want.user_props = exp_up.clone();
+                if w.streams[s].items.is_empty() && w.run_result.is_none() && w.panics.is_empty() {
+                    // accepted but not handed to the stream: whether a message must be delivered
+                    // is C07's claim; nothing was exposed, so there is nothing to compare here
+                    out.excluded.push("PUBLISH accepted but not delivered to the stream (not judged here)".into());
+                    return Ok(());
+                }
                 if w.streams[s].items.len() != 1 || w.streams[s].items[0] != want {
                     let kind = if w.streams[s].items.is_empty() {
-                        "not-delivered"
+                        "rejected"
                     } else {
                         "field-mismatch"
                     };
